@@ -537,6 +537,15 @@ def gen_str_guards(rng, n=160, start=0):
                  tags={"guard", "str"})
         d.default_arg = default_arg
         decls.append(d)
+    # length limits at the values a generator could special-case, as plain literals, whatever the rotation above picks
+    for k_, items in enumerate(([[tid("len_char_min"), EQ, tx(lit_int(0))]], [[tid("len_char_min"), EQ, tx(lit_int(1))]],
+                                [[tid("len_char_min"), EQ, tx(lit_int(0))], [tid("len_char_max"), EQ, tx(lit_int(2))]],
+                                [[tid("len_char_max"), EQ, tx(lit_int(0))]], [[tid("not_empty")], [tid("len_char_min"), EQ, tx(lit_int(1))]],
+                                [[tid("len_char_min"), EQ, tx(lit_int(1))], [tid("len_char_max"), EQ, tx(lit_int(1))]])):
+        blocks = ([block("sanitize", [[tid("trim")]])] if k_ % 2 else []) + [block("validate", items), derive_block(["Debug", "Clone", "PartialEq", "TryFrom", "FromStr"])]
+        d = Decl("s%d" % (start + len(decls)), "String", attr(blocks), env=[], tags={"guard", "str"})
+        d.default_arg = None
+        decls.append(d)
     return decls
 
 
